@@ -62,8 +62,10 @@ package hash
 //@   ensures inDom(h.nodes, repr(node))
 
 // removeRingNode: afterwards the bucket holds no member with that repr; it is dropped iff it became empty
+// (in-place filtering: the filtered list replaces the one it was cut from (h.ring[hash]) or that entry is deleted)
 //@ func (h *ConsistentHash) removeRingNode
 //@   property C15
+//@   flag append_in_place_ok
 //@   requires h.ring != nil
 //@   ensures  forall(x.(any), implies(inDom(h.ring, hash) && has(h.ring[hash], x), repr(x) != nodeRepr && old(inDom(h.ring, hash)) && old(has(h.ring[hash], x))))
 //@   ensures  forall(x.(any), implies(old(inDom(h.ring, hash)) && old(has(h.ring[hash], x)) && repr(x) != nodeRepr, inDom(h.ring, hash) && has(h.ring[hash], x)))
@@ -77,8 +79,10 @@ package hash
 
 // Remove: only virtual nodes with index below h.replicas exist (AddWithReplicas clamps), so visiting i in [0, h.replicas)
 // reaches all of them; every exact match found by the binary search is taken out of keys; the bucket is purged of the node.
+// (in-place filtering: h.keys is replaced by the result of the in-place deletion)
 //@ func (h *ConsistentHash) Remove
 //@   property C15
+//@   flag append_in_place_ok
 //@   flag nolock purefn:hashFunc callbacks_noheap nopanic:hashFunc
 //@   requires h.ring != nil && h.nodes != nil && h.replicas >= 100
 //@   requires forall(i.(int), j.(int), implies(0 <= i && i <= j && j < len(h.keys), h.keys[i] <= h.keys[j]))
